@@ -33,25 +33,49 @@ def EndsOK (c : FastOps) : Prop :=
 def ActOK (nv : Nat) (nb : Option Nat) (r : Option (Option Op)) : Prop :=
   ∀ op, r = some (some op) → OpOK nv nb op
 
+/-- what a callback may answer under a Varlist cursor: no change, or a change whose old op (if any)
+and new op (if any) lie inside the listed variables (the first `debug_assert!` of `mutate_p`:
+"Trying to mutate from or into an op which spans variables not prepared in the args") -/
+def SubActOK (nv : Nat) (nb : Option Nat) (vs : List Nat) (o : Option Op) (r : Option (Option Op)) : Prop :=
+  ∀ x, r = some x →
+    (∀ op, o = some op → ∀ v, v ∈ op.vars → v ∈ vs) ∧
+    (∀ op, x = some op → OpOK nv nb op ∧ ∀ v, v ∈ op.vars → v ∈ vs)
+
 /-- `Valid`: exactly the conditions under which the Rust neither trips a `debug_assert`, nor
 unwraps a `None`, nor indexes out of range — plus the domain restriction `OpOK` on new ops.
 * `setSlot`: `self.ops[p]` must exist.
 * `sweep`: `pstart ≤ pend`; `fill_args_at_p(pstart)` indexes `ops[pstart]` after the growth to
   `pend`, hence `pstart < max pend len` (only when some variable has ops; we demand it always).
 * `sweepOps`: the same, and the callback never answers `Some(None)` (the all-variables branch
-  does `self.ops[node_p].as_ref().unwrap()` after the call). -/
+  does `self.ops[node_p].as_ref().unwrap()` after the call).
+* `sweepArgs` / `sweepOpsArgsAll` (args built by the caller with the NON-hint fill before the
+  array is grown): `pstart < len` (`fill_args_at_p` indexes `ops[pstart]`); for a `Varlist`: listed
+  variables pairwise distinct and in range, the callback changes only ops inside the listed variables
+  (`SubActOK`), and — the documented boundary of the non-hint fill — some listed variable has an op
+  or nothing lies below `pstart` (otherwise `unfilled = 0` makes `fill_args_at_p` return at once with
+  `last_p = None`; probe `varlist_nohint`). -/
 def Mut.Valid {τ : Type} (c : FastOps) : Mut τ → Prop
   | .setSlot p new => p < c.ops.length ∧ ActOK c.getNvars c.nbonds (some new)
   | .sweep ps pe f _ => ps ≤ pe ∧ ps < max pe c.ops.length ∧ ∀ c' o t', ActOK c.getNvars c.nbonds (f c' o t').1
   | .sweepOps ps pe f _ => ps ≤ pe ∧ ps < max pe c.ops.length ∧
       ∀ c' o q t', ActOK c.getNvars c.nbonds (f c' o q t').1 ∧ (f c' o q t').1 ≠ some none
   | .setCutoff _ => True
+  | .sweepArgs .all _ ps pe f _ =>
+      ps ≤ pe ∧ ps < c.ops.length ∧ ∀ c' o t', ActOK c.getNvars c.nbonds (f c' o t').1
+  | .sweepArgs (.varlist vs) _ ps pe f _ =>
+      ps ≤ pe ∧ ps < c.ops.length ∧ vs.Nodup ∧ (∀ v, v ∈ vs → v < c.getNvars) ∧
+      ((∃ v, v ∈ vs ∧ c.doesVarHaveOps v = true) ∨ ∀ q, q < ps → c.getPth q = none) ∧
+      ∀ c' o t', SubActOK c.getNvars c.nbonds vs o (f c' o t').1
+  | .sweepOpsArgsAll _ ps pe f _ => ps ≤ pe ∧ ps < c.ops.length ∧
+      ∀ c' o q t', ActOK c.getNvars c.nbonds (f c' o q t').1 ∧ (f c' o q t').1 ≠ some none
 
 /-- the callback observes the container only through its global view (`get_n`, `get_count`,
 `get_pth`, `get_first_p`, … but not the per-variable links) -/
 def Mut.GlobalObs {τ : Type} : Mut τ → Prop
   | .sweep _ _ f _ => ∀ c o t, f c o t = f c.g o t
   | .sweepOps _ _ _ _ => False
+  | .sweepArgs _ _ _ _ _ _ => False
+  | .sweepOpsArgsAll _ _ _ _ _ => False
   | _ => True
 
 /-! ### the canonical container, read through the getters -/
